@@ -227,6 +227,32 @@ pub fn variants(c: &Case, thorough: bool) -> Vec<Variant> {
         if removed >= 2 {
             out.push(Variant { key: format!("end-if-without-semicolon/all-{}-at-once", removed.min(3)), what: format!("all {} END_IF written without `;`", removed), text: spell_lx(&m) });
         }
+        // --- respelling kinds combined: every keyword in each case variant together with (a) every END_IF
+        // written without `;`, (b) a trivia member at every gap
+        for vi in 0..3 {
+            let recase = |v: &[Lexeme]| -> Vec<Lexeme> {
+                let mut r = v.to_vec();
+                for l in r.iter_mut() {
+                    if is_kw(l) && l.class != Class::LitPart {
+                        if let Some((t, _)) = case_variants(&l.text).get(vi) {
+                            l.text = t.clone();
+                        }
+                    }
+                }
+                r
+            };
+            if removed >= 1 {
+                out.push(Variant { key: format!("combined/end-if-without-semicolon+keyword-case-{}", vi), what: format!("every END_IF without `;` and every keyword in case variant {}", vi), text: spell_lx(&recase(&m)) });
+            }
+            let r = recase(lx);
+            for (mname, mtext) in menu.iter().filter(|(name, _)| matches!(*name, "lf" | "crlf" | "comment-tight" | "tab" | "multi-line-comment")) {
+                let sp = spell_with(&r, mtext, mtext, &|_, g| match g {
+                    Glue::Hard => String::new(),
+                    _ => mtext.to_string(),
+                });
+                out.push(Variant { key: format!("combined/every-gap-{}+keyword-case-{}", mname, vi), what: format!("trivia `{}` at every gap and every keyword in case variant {}", mname, vi), text: sp.text });
+            }
+        }
     }
     out
 }
@@ -286,7 +312,7 @@ pub fn run(ctx: &mut Ctx) {
     let deep = ctx.tier.thorough();
     let thorough = true;
     let cases = crate::gram::generate(if deep { 2 } else { 1 });
-    ctx.rule = "every C01 program (deviation bound 1, thorough 2) whose canonical text parses x {each keyword occurrence x 3 case variants, all keywords at once, each identifier occurrence x case variants, all identifier occurrences in different cases, each non-glued gap x trivia menu (all members), nothing at the gap where the lexical rules allow it, every gap at once x each member, END_IF with and without ';'}; distinct = distinct respelled text".into();
+    ctx.rule = "every C01 program (deviation bound 1, thorough 2) whose canonical text parses x {each keyword occurrence x 3 case variants, all keywords at once, each identifier occurrence x case variants, all identifier occurrences in different cases, each non-glued gap x trivia menu (all members), nothing at the gap where the lexical rules allow it, every gap at once x each member, END_IF with and without ';', all keywords in each case variant combined with every END_IF without ';' and with trivia at every gap}; distinct = distinct respelled text".into();
     ctx.bounds.insert("deviation_bound".into(), json!(if deep { 2 } else { 1 }));
     ctx.bounds.insert("trivia_menu".into(), json!(trivia_menu().iter().map(|m| m.0).collect::<Vec<_>>()));
     ctx.assumptions.push("library equality is the repository's own PartialEq (spans compare equal, identifiers compare on lower case) plus equality of the case-folded projection π; verdict = sorted analyze() codes".into());
